@@ -48,21 +48,31 @@ def image(draw, tier):
 
 
 @st.composite
+def _param_types(draw):
+    t = draw(gen.scalar_types())
+    return {"ext_type": t, "os_type": t if draw(st.booleans()) else draw(gen.scalar_types())}
+
+
+@st.composite
 def blur_case(draw, tier):
     img, kind = draw(image(tier))
     fn = draw(st.sampled_from(["pixel", "jitter", "smear"]))
     os_ = draw(st.integers(1, 5))
-    ext = draw(st.sampled_from([0.0, 0.3, 1.0, 2.5, 6.0])) if draw(st.booleans()) else draw(gen.finite(0.0, 6.0))
+    ext = draw(st.sampled_from([0.0, 0.3, 1.0, 2.5, 6.0, 2, 3, 60, 100, 200, 250, 120])) if draw(st.booleans()) else draw(gen.finite(0.0, 6.0))
     if kind != "int_counts":
         img = img * draw(gen.scales())
     return {"layout": draw(gen.layouts()), "img": img, "kind": kind, "fn": fn, "oversample": os_, "extent": ext,
+            # numeric types of the scalar parameters (numpy integer / float scalars, 0-d arrays)
+            **draw(_param_types()),
             "angle": draw(st.sampled_from([0, 90, 45.0, 180, 270, 30.0])) if draw(st.booleans()) else draw(gen.finite(0.0, 360.0)),
             "pixelscale": draw(gen.pos_log(1e-6, 1e-4)), "roll": [draw(st.integers(-30, 30)), draw(st.integers(-30, 30))],
             "phys": draw(st.booleans())}
 
 
 def call(case, img):
-    fn, os_, ext = case["fn"], case["oversample"], case["extent"]
+    fn = case["fn"]
+    os_ = gen.typed_scalar(case["oversample"], case.get("os_type"))
+    ext = gen.typed_scalar(case["extent"], case.get("ext_type"))
     if fn == "pixel":
         return detector.pixel(img, oversample=os_)
     if fn == "jitter":
@@ -101,7 +111,9 @@ def blur(case, ctx):
     ext = case["extent"] if fn != "pixel" else float(case["oversample"])
     ctx.tag("fn:" + fn, "nonsquare" if shape[0] != shape[1] else "square", gen.parity_tags("img", shape),
             "img:" + case["kind"], "zero_extent" if ext == 0 else None, "phys_units" if case["phys"] and fn != "pixel" else None,
-            f"os:{case['oversample']}", "1xN" if 1 in shape else None)
+            f"os:{case['oversample']}", "1xN" if 1 in shape else None,
+            "ext_type:" + type(gen.typed_scalar(case["extent"], case.get("ext_type"))).__name__,
+            "os_type:" + type(gen.typed_scalar(case["oversample"], case.get("os_type"))).__name__)
     ctx.nontrivial_if(case["kind"] != "const" and ext > 0)
     img0 = img.copy()
     with lentil_call("C19." + fn, f"{fn}(image {shape})"):
